@@ -71,17 +71,26 @@ func (rm *RegistrationManager) HandleRegUpdates(ctx context.Context, regChan <-c
 
 	// distribute messages to workers. When workers are unavailable messages are
 	// added into channel buffer until full, then dropped.
+	// The stop request is watched together with the input channel: a plain "range regChan" only
+	// notices ctx.Done() when the next message arrives, so on an idle channel the station never
+	// finished shutting down.
 distrLoop:
-	for msg := range regChan {
-		rm.addIngestMessage()
+	for {
 		select {
 		case <-ctx.Done():
 			logger.Infof("closing all ingest threads")
 			break distrLoop
-		case shallowBuffer <- msg:
-		default:
-			logger.Tracef("dropping registration")
-			rm.addDroppedMessage()
+		case msg, ok := <-regChan:
+			if !ok {
+				break distrLoop
+			}
+			rm.addIngestMessage()
+			select {
+			case shallowBuffer <- msg:
+			default:
+				logger.Tracef("dropping registration")
+				rm.addDroppedMessage()
+			}
 		}
 	}
 
